@@ -337,6 +337,9 @@ private:
   mutable std::map<std::string, ContentPtr> map_;
 };
 
+static std::vector<std::pair<ContentPtr, ContentPtr>> g_virtuals;   // (virtual array, the layout its generator hands out)
+static bool g_virtual_inner = false;                                // wrap the content of the outermost node instead
+
 struct VirtualMode {
   bool on;
   int64_t cache_keep;     // -2: no cache object, -1: unbounded, k >= 0: evict after k gets
@@ -361,10 +364,51 @@ static ContentPtr make_virtual(const ContentPtr& x) {
   ArrayGeneratorPtr gen = std::make_shared<CountingGenerator>(form, length, x, g_virtual.fail_first);
   ArrayCachePtr cache(nullptr);
   if (g_virtual.cache_keep != -2) cache = std::make_shared<TestCache>(g_virtual.cache_keep);
-  return std::make_shared<VirtualArray>(Identities::none(), util::Parameters(), gen, cache);
+  ContentPtr v = std::make_shared<VirtualArray>(Identities::none(), util::Parameters(), gen, cache);
+  g_virtuals.push_back(std::make_pair(v, x));
+  return v;
+}
+
+// the same node with its content replaced by a VirtualArray of that content (lists, regular, indexed and option nodes);
+// any other node is wrapped as a whole
+template <typename T>
+static bool virtual_list(const ContentPtr& x, ContentPtr& out) {
+  if (ListOffsetArrayOf<T>* r = dynamic_cast<ListOffsetArrayOf<T>*>(x.get())) {
+    out = std::make_shared<ListOffsetArrayOf<T>>(r->identities(), r->parameters(), r->offsets(), make_virtual(r->content()));
+    return true;
+  }
+  if (ListArrayOf<T>* r = dynamic_cast<ListArrayOf<T>*>(x.get())) {
+    out = std::make_shared<ListArrayOf<T>>(r->identities(), r->parameters(), r->starts(), r->stops(), make_virtual(r->content()));
+    return true;
+  }
+  return false;
+}
+template <typename T, bool OPT>
+static bool virtual_indexed(const ContentPtr& x, ContentPtr& out) {
+  if (IndexedArrayOf<T, OPT>* r = dynamic_cast<IndexedArrayOf<T, OPT>*>(x.get())) {
+    out = std::make_shared<IndexedArrayOf<T, OPT>>(r->identities(), r->parameters(), r->index(), make_virtual(r->content()));
+    return true;
+  }
+  return false;
+}
+static ContentPtr make_virtual_inner(const ContentPtr& x) {
+  ContentPtr out(nullptr);
+  if (x.get()->parameter_equals("__array__", "\"string\"") || x.get()->parameter_equals("__array__", "\"bytestring\"")) return make_virtual(x);
+  if (virtual_list<int32_t>(x, out) || virtual_list<uint32_t>(x, out) || virtual_list<int64_t>(x, out)) return out;
+  if (virtual_indexed<int32_t, false>(x, out) || virtual_indexed<uint32_t, false>(x, out) || virtual_indexed<int64_t, false>(x, out)
+      || virtual_indexed<int32_t, true>(x, out) || virtual_indexed<int64_t, true>(x, out)) return out;
+  if (RegularArray* r = dynamic_cast<RegularArray*>(x.get()))
+    return std::make_shared<RegularArray>(r->identities(), r->parameters(), make_virtual(r->content()), r->size(), r->length());
+  if (ByteMaskedArray* r = dynamic_cast<ByteMaskedArray*>(x.get()))
+    return std::make_shared<ByteMaskedArray>(r->identities(), r->parameters(), r->mask(), make_virtual(r->content()), r->valid_when());
+  if (UnmaskedArray* r = dynamic_cast<UnmaskedArray*>(x.get()))
+    return std::make_shared<UnmaskedArray>(r->identities(), r->parameters(), make_virtual(r->content()));
+  return make_virtual(x);
 }
 
 static int64_t g_sharedunion = 0;   // > 0: wrap every input layout in a union of two references to itself
+static int64_t g_record_at = -1;    // >= 0: replace every input layout by the record at that position
+static int64_t g_window = 0;        // > 0: wrap every input layout in a union of two overlapping windows of itself
 
 static ContentPtr input_layout(Toks& tk, bool may_wrap = true) {
   ContentPtr x = parse_layout(tk);
@@ -372,7 +416,34 @@ static ContentPtr input_layout(Toks& tk, bool may_wrap = true) {
   std::ostringstream du;
   dump(x, du);
   g_before.push_back(du.str());
-  if (g_virtual.on && may_wrap) return make_virtual(x);
+  if (g_virtual.on && may_wrap) return g_virtual_inner ? make_virtual_inner(x) : make_virtual(x);
+  if (g_record_at >= 0 && may_wrap) {
+    // the operation is applied to one record taken out of the array (an awkward::Record scalar)
+    return x.get()->getitem_at_nowrap(g_record_at);
+  }
+  if (g_window > 0 && may_wrap
+      && !dynamic_cast<UnionArray8_32*>(x.get()) && !dynamic_cast<UnionArray8_U32*>(x.get()) && !dynamic_cast<UnionArray8_64*>(x.get())
+      && x.get()->length() >= 2) {
+    // the same array as a union of two overlapping windows of itself, x[0:n-1] and x[1:n]: views of the same
+    // buffers that start at different positions; element i comes from the first window (position i) or from the
+    // second (position i-1), the first element necessarily from the first, the last from the second
+    int64_t n = x.get()->length();
+    ContentPtr w0 = x.get()->getitem_range_nowrap(0, n - 1);
+    ContentPtr w1 = x.get()->getitem_range_nowrap(1, n);
+    Index8 tags(n);
+    Index64 index(n);
+    for (int64_t i = 0; i < n; i++) {
+      int8_t t = (int8_t)(((i * 5 + g_window) % 3) % 2);
+      if (i == 0) t = 0;
+      if (i == n - 1) t = 1;
+      tags.data()[i] = t;
+      index.data()[i] = (t == 0) ? i : i - 1;
+    }
+    ContentPtrVec contents;
+    contents.push_back(w0);
+    contents.push_back(w1);
+    return std::make_shared<UnionArray8_64>(Identities::none(), util::Parameters(), tags, index, contents);
+  }
   if (g_sharedunion > 0 && may_wrap
       && !dynamic_cast<UnionArray8_32*>(x.get()) && !dynamic_cast<UnionArray8_U32*>(x.get()) && !dynamic_cast<UnionArray8_64*>(x.get())) {
     // (a union must not contain a union: an input that is a union itself is left as it is)
@@ -442,7 +513,7 @@ static void tostr_string(const ContentPtr& c, std::ostream& out, bool isbytes) {
   for (int64_t i = 0; i < n; i++) {
     ContentPtr x = c.get()->getitem_at_nowrap(i);
     NumpyArray* raw = dynamic_cast<NumpyArray*>(x.get());
-    if (raw == nullptr || !raw->isscalar()) { out << "??"; continue; }
+    if (raw == nullptr || !raw->isscalar() || raw->dtype() != util::dtype::uint8) { out << "3f"; continue; }   // (only met on invalid layouts)
     char buf[8];
     snprintf(buf, sizeof(buf), "%02x", (unsigned)*reinterpret_cast<uint8_t*>(raw->data()));
     out << buf;
@@ -734,10 +805,12 @@ static std::string run_op(const std::string& op, Toks& tk, ContentPtr& result) {
     ContentPtr x = input_layout(tk);
     result = x.get()->getitem_field(key);
     // depth queries on the projection as returned (for a VirtualArray: before anything is materialised)
-    std::pair<int64_t, int64_t> mm = result.get()->minmax_depth();
-    std::pair<bool, int64_t> bd = result.get()->branch_depth();
-    g_extra = std::to_string(result.get()->purelist_depth()) + " " + std::to_string(mm.first) + " " + std::to_string(mm.second)
-              + " " + (bd.first ? "1" : "0") + " " + std::to_string(bd.second);
+    if (!dynamic_cast<None*>(result.get())) {      // (a missing value taken out of a Record has no depth)
+      std::pair<int64_t, int64_t> mm = result.get()->minmax_depth();
+      std::pair<bool, int64_t> bd = result.get()->branch_depth();
+      g_extra = std::to_string(result.get()->purelist_depth()) + " " + std::to_string(mm.first) + " " + std::to_string(mm.second)
+                + " " + (bd.first ? "1" : "0") + " " + std::to_string(bd.second);
+    }
   }
   else if (op == "getitem_fields") {
     int64_t k = tk.i64();
@@ -810,7 +883,7 @@ static std::string run_op(const std::string& op, Toks& tk, ContentPtr& result) {
     result = clip ? x.get()->rpad_and_clip(target, axis, 0) : x.get()->rpad(target, axis, 0);
   }
   else if (op == "fillna") {
-    ContentPtr v = input_layout(tk);
+    ContentPtr v = input_layout(tk, false);
     ContentPtr x = input_layout(tk);
     result = x.get()->fillna(v);
   }
@@ -905,7 +978,9 @@ static std::string run_op(const std::string& op, Toks& tk, ContentPtr& result) {
         << (bd.first ? "True" : "False") << "," << bd.second << ")";
     return out.str();
   }
-  else if (op == "virtual") {
+  else if (op == "virtual" || op == "virtual_inner") {
+    // (virtual_inner: the CONTENT of the outermost list / regular / indexed / option node is the VirtualArray)
+    g_virtual_inner = (op == "virtual_inner");
     // virtual <cache_keep> <decl_length> <decl_form> <fail_first> <sub-op ...>: every input layout of the sub-operation
     // is wrapped in a VirtualArray; payload = (value, number of generator calls)
     g_virtual.on = true;
@@ -923,13 +998,33 @@ static std::string run_op(const std::string& op, Toks& tk, ContentPtr& result) {
       try { ContentPtr r2(nullptr); run_op(sub, tk2, r2); first = "'no-exception'"; }
       catch (std::exception& e) { first = "'raised'"; }
       g_fail_remaining = 0;
-      g_inputs.clear(); g_before.clear();
+      g_inputs.clear(); g_before.clear(); g_virtuals.clear();
     }
     else first = "None";
     std::string payload = run_op(sub, tk, result);
     out << "(" << payload << "," << g_generate_calls << "," << first << ")";
     g_virtual.on = false;
     return out.str();
+  }
+  else if (op == "record_at") {
+    // record_at <i> <sub-op ...>: the sub-operation applied to the Record scalar x[i]
+    g_record_at = tk.i64();
+    std::string sub = tk.next();
+    std::string payload;
+    try { payload = run_op(sub, tk, result); }
+    catch (...) { g_record_at = -1; throw; }
+    g_record_at = -1;
+    return payload;
+  }
+  else if (op == "windows") {
+    // windows <pattern> <sub-op ...>: the sub-operation on union[x[0:n-1], x[1:n]] must give what it gives on x
+    g_window = tk.i64();
+    std::string sub = tk.next();
+    std::string payload;
+    try { payload = run_op(sub, tk, result); }
+    catch (...) { g_window = 0; throw; }
+    g_window = 0;
+    return payload;
   }
   else if (op == "sharedunion") {
     // sharedunion <pattern> <sub-op ...>: the sub-operation on union[x, x] with shared buffers must give what it gives on x
@@ -1164,7 +1259,17 @@ static void builder_cmds(Toks& tk, ArrayBuilder& b, std::ostringstream& out) {
     else if (c == "int") b.integer(tk.i64());
     else if (c == "real") b.real(tk.f64());
     else if (c == "complex") { double r = tk.f64(); double i = tk.f64(); b.complex(std::complex<double>(r, i)); }
-    else if (c == "str") { std::string s = tk.next(); if (s == "''") s = ""; b.string(s); }
+    else if (c == "str") {
+      std::string s = tk.next();
+      if (s == "''") s = "";
+      // %00 stands for a NUL character inside the string
+      std::string t;
+      for (size_t q = 0; q < s.size(); q++) {
+        if (s.compare(q, 3, "%00") == 0) { t.push_back('\0'); q += 2; }
+        else t.push_back(s[q]);
+      }
+      b.string(t);
+    }
     else if (c == "bytes") { std::string s = tk.next(); if (s == "''") s = ""; b.bytestring(s); }
     else if (c == "beginlist") b.beginlist();
     else if (c == "endlist") b.endlist();
@@ -1212,6 +1317,8 @@ static void run_case(const std::string& line) {
     g_before.clear();
     g_extra.clear();
     g_result_payload.clear();
+    g_virtuals.clear();
+    g_virtual.on = false;
     std::string payload = run_op(op, tk, result);
     std::string validity = "-";
     bool isscalar = false;
@@ -1227,6 +1334,15 @@ static void run_case(const std::string& line) {
       dump(g_inputs[i], du);
       if (du.str() != g_before[i]) pure = 0;
     }
+    // a virtual input still reads as the layout its generator hands out (when it can be read at all: a wrongly
+    // declared length or form is refused)
+    for (size_t i = 0; i < g_virtuals.size(); i++) {
+      std::ostringstream a, b;
+      try { tostr(g_virtuals[i].first, a); } catch (std::exception& e) { continue; }
+      tostr(g_virtuals[i].second, b);
+      if (a.str() != b.str()) pure = 0;
+    }
+    g_virtuals.clear();
     // the result must survive its inputs: drop them, then render again
     if (result.get() != nullptr) {
       g_inputs.clear();
